@@ -1770,6 +1770,8 @@ pub struct GraphEngine {
     geo_indexes: RwLock<HashMap<String, geo::GeoIndex>>,
     /// Striped locks for concurrent index updates.
     index_locks: Vec<RwLock<()>>,
+    /// Striped locks serializing read-modify-write updates of a node's edge lists.
+    adjacency_locks: Vec<RwLock<()>>,
     /// Whether the label index has been initialized (for lazy auto-creation).
     label_index_initialized: AtomicBool,
     /// Whether the edge type index has been initialized (for lazy auto-creation).
@@ -1823,6 +1825,7 @@ impl GraphEngine {
             fulltext_indexes: RwLock::new(HashMap::new()),
             geo_indexes: RwLock::new(HashMap::new()),
             index_locks: create_index_locks(lock_count),
+            adjacency_locks: create_index_locks(lock_count),
             label_index_initialized: AtomicBool::new(false),
             edge_type_index_initialized: AtomicBool::new(false),
             constraints: RwLock::new(HashMap::new()),
@@ -1893,6 +1896,7 @@ impl GraphEngine {
             fulltext_indexes: RwLock::new(HashMap::new()),
             geo_indexes: RwLock::new(HashMap::new()),
             index_locks: create_index_locks(config.index_lock_count),
+            adjacency_locks: create_index_locks(config.index_lock_count),
             label_index_initialized: AtomicBool::new(label_index_exists),
             edge_type_index_initialized: AtomicBool::new(edge_type_index_exists),
             constraints: RwLock::new(constraints),
@@ -1943,6 +1947,7 @@ impl GraphEngine {
             fulltext_indexes: RwLock::new(HashMap::new()),
             geo_indexes: RwLock::new(HashMap::new()),
             index_locks: create_index_locks(config.index_lock_count),
+            adjacency_locks: create_index_locks(config.index_lock_count),
             label_index_initialized: AtomicBool::new(label_index_exists),
             edge_type_index_initialized: AtomicBool::new(edge_type_index_exists),
             constraints: RwLock::new(constraints),
@@ -3370,7 +3375,18 @@ impl GraphEngine {
         Ok(id)
     }
 
+    /// Lock stripe guarding the read-modify-write of one stored edge list.
+    fn adjacency_lock(&self, list_key: &str) -> &RwLock<()> {
+        let hash = list_key
+            .bytes()
+            .fold(0usize, |acc, b| acc.wrapping_mul(31).wrapping_add(b as usize));
+        &self.adjacency_locks[hash % self.adjacency_locks.len()]
+    }
+
     fn add_edge_to_list(&self, key: String, edge_id: u64) -> Result<()> {
+        // The list is a stored value: without the lock two concurrent updates of the same
+        // list both start from the old value and one of them is lost.
+        let _list_guard = self.adjacency_lock(&key).write();
         let mut tensor = self.store.get(&key).unwrap_or_else(|_| TensorData::new());
         let mut edges = Self::extract_edge_ids(&tensor);
         if !edges.contains(&edge_id) {
@@ -6441,6 +6457,7 @@ impl GraphEngine {
     }
 
     fn remove_edge_from_list(&self, key: &str, edge_id: u64) -> Result<()> {
+        let _list_guard = self.adjacency_lock(key).write();
         if let Ok(mut tensor) = self.store.get(key) {
             // Remove from new Pointers format
             if let Some(TensorValue::Pointers(ptrs)) = tensor.get("_edges") {
